@@ -168,7 +168,7 @@ def main():
         for sep in seps:
             if not sl.tree_ok(tree, sep):
                 continue
-            styles = ['compact'] + (['padded'] if sep[0] == ' ' else [])
+            styles = ['compact', 'joined'] + (['padded', 'joined-padded'] if sep[0] == ' ' else [])
             for st in styles:
                 cases.extend(tree_cases(tree, sep, st, 'tree-%s-%s' % (fam, st)))
     # variants outside the proved fragment: surrounding whitespace, missing trailing
